@@ -1,0 +1,13 @@
+//go:build verif
+
+// Contracts for package common, read as text by the verification-condition generator in /verif.
+// This file contains no code; with the build tag off it is not part of the build at all.
+
+package common
+
+//@ func IsNegativeFloat
+//@   inline
+//@ func HasQuietNanBitSet64
+//@   inline
+//@ func HasQuietNanBitSet32
+//@   inline
